@@ -131,7 +131,21 @@ type textSource struct {
 
 func (ts *textSource) draw(c *core.Ctx, n ap.NaturalLanguageValues, nTags, nTexts int) ap.Content {
 	t := c.Tape
-	switch t.Draw(8) {
+	switch t.Draw(9) {
+	case 8:
+		if len(n) > 0 {
+			// part of a text obtained from the container: a prefix, a suffix or a middle piece of what
+			// is stored (shortening a text in place: n.Set("en", n.Get("en")[:15]))
+			v := n.Get(n[t.Draw(len(n))].Ref)
+			if len(v) >= 2 {
+				lo := t.Draw(len(v) / 2)
+				hi := len(v) - t.Draw(len(v)/2)
+				v = v[lo:hi]
+				c.Probe("text_is_part_of_an_entry")
+				ts.last = v
+				return v
+			}
+		}
 	case 0:
 		if len(n) > 0 {
 			// a text obtained from the container itself
@@ -175,7 +189,18 @@ func run(c *core.Ctx) {
 	}
 	tags = baseTags
 	if c.Tape.Bool(1, 40) {
-		tags = longTags
+		// (the synthetic tags differ from run to run: a process that has worked for a while has seen
+		// thousands of distinct language tags, as a server has)
+		p0, p1 := byte('a'+c.Tape.Draw(26)), byte('a'+c.Tape.Draw(26))
+		lt := append([]ap.LangRef(nil), baseTags...)
+		for i := 0; len(lt) < 128; i++ {
+			tg := fmt.Sprintf("%c%c%02d", p0, p1, i)
+			if i%5 == 4 {
+				tg += "-Latn"
+			}
+			lt = append(lt, ap.LangRef(tg))
+		}
+		tags = lt
 		c.Probe("long_run")
 		defer func() { tags = baseTags }()
 	}
@@ -214,8 +239,21 @@ func runHistory(c *core.Ctx) {
 		bystanders = append(bystanders, mk())
 		n = mk()
 		bystanders = append(bystanders, mk(), mk())
+		if t.Bool(1, 2) {
+			// lists made from one slice of defaults the caller keeps (spread with ...): the lists and the
+			// caller's slice are four values of their own
+			k := 2 + t.Draw(3)
+			defaults := make([]ap.LangRefValue, k, k+2)
+			for i := range defaults {
+				defaults[i] = ap.LangRefValueNew(drawTag(t, nTags), string(drawText(t, nTexts)))
+			}
+			bystanders = append(bystanders, ap.NaturalLanguageValuesNew(defaults...))
+			n = ap.NaturalLanguageValuesNew(defaults[:1+t.Draw(k)]...)
+			bystanders = append(bystanders, ap.NaturalLanguageValuesNew(defaults...), ap.NaturalLanguageValues(defaults))
+			c.Probe("lists_spread_from_one_slice")
+		}
 		c.Probe("constructor_made_lists")
-		c.Logf("init by constructor %s, bystanders %s %s %s", renderPairs(snapshot(n)), renderPairs(snapshot(bystanders[0])), renderPairs(snapshot(bystanders[1])), renderPairs(snapshot(bystanders[2])))
+		c.Logf("init by constructor %s, %d bystanders, the first: %s", renderPairs(snapshot(n)), len(bystanders), renderPairs(snapshot(bystanders[0])))
 	case 0: // nil list
 		c.Logf("init nil")
 	case 1:
